@@ -223,7 +223,7 @@ def norm(path):
 class Body:
     __slots__ = ("path", "npath", "crate", "unit", "bin", "kind", "coroutine", "parent", "self_ty",
                  "trait", "pub", "file", "lines", "mac", "nblocks", "yields", "calls", "aggregates",
-                 "field_mut", "asserts", "_facts", "_detail", "_cfg")
+                 "field_mut", "asserts", "_facts", "_detail", "_cfg", "_ref_roots", "_prepped")
 
     def __init__(self, d, facts):
         for k in ("path", "crate", "unit", "bin", "kind", "coroutine", "parent", "self_ty", "trait",
